@@ -70,7 +70,7 @@ def main():
                  'capped at VERIF_SLICE_CAP (default 600 CPU-s); raise both '
                  'to go deeper. known_findings.json: F4 (C11) is the only '
                  'open finding; 18 defects were repaired by fix: commits in '
-                 '/repo. seeded/: 80 seeded changes with per-check results.',
+                 '/repo. seeded/: 84 seeded changes with per-check results.',
     }
     with open(os.path.join(ROOT, 'MANIFEST.json'), 'w') as f:
         json.dump(manifest, f, indent=1)
